@@ -238,6 +238,89 @@ Incr == /\ Is("Incr")
            fails' = (IF Ev.val # exp THEN {F("C09", <<"incremental value", Ev.axis, Ev.step, Ev.val, exp>>, "incremental")} ELSE {})
         /\ l' = l + 1 /\ UNCHANGED <<run, scen, params, base, objs, call, hist, expect>>
 
+\* C20: export to ISPD/Bookshelf files and re-read with the package's own reader: the identity on cell sizes, fixed flags,
+\* positions, orientations, net connectivity, pin offsets, row geometry and row orientation (hence on the wirelength)
+Observable(c) == [cells |-> [i \in 1..Len(c.cells) |-> [w |-> c.cells[i].w, h |-> c.cells[i].h, f |-> c.cells[i].f,
+                                                         x |-> c.cells[i].x, y |-> c.cells[i].y, o |-> c.cells[i].o]],
+                  nets |-> [k \in 1..Len(c.nets) |-> [j \in 1..Len(c.nets[k].pins) |-> c.nets[k].pins[j]]],
+                  rows |-> c.rows]
+WithDefaults(c) == [cells |-> [i \in 1..Len(c.cells) |-> [w |-> c.cells[i].w, h |-> c.cells[i].h, f |-> c.cells[i].f, ob |-> TRUE, p |-> "ANY",
+                                                            x |-> c.cells[i].x, y |-> c.cells[i].y, o |-> c.cells[i].o]],
+                    nets |-> [k \in 1..Len(c.nets) |-> [wt |-> 0, pins |-> c.nets[k].pins]], rows |-> c.rows]
+RoundTripFails ==
+    LET b == Ev.before a == Ev.after IN
+    IF Ev.outcome # "ok" THEN {F("C20", <<"the reader rejected the exported files", Ev.outcome>>, "rt-read")}
+    ELSE LET ob == Observable(b) oa == Observable(WithDefaults(a))
+             what == IF Len(a.cells) # Len(b.cells) THEN "cell count"
+                     ELSE IF \E i \in 1..Len(b.cells) : ob.cells[i].w # oa.cells[i].w \/ ob.cells[i].h # oa.cells[i].h THEN "cell sizes"
+                     ELSE IF \E i \in 1..Len(b.cells) : ob.cells[i].f # oa.cells[i].f THEN "fixed flags"
+                     ELSE IF \E i \in 1..Len(b.cells) : ob.cells[i].x # oa.cells[i].x \/ ob.cells[i].y # oa.cells[i].y THEN "positions"
+                     ELSE IF \E i \in 1..Len(b.cells) : ob.cells[i].o # oa.cells[i].o THEN "orientations"
+                     ELSE IF Len(a.nets) # Len(b.nets) \/ \E k \in 1..Len(b.nets) : Len(a.nets[k].pins) # Len(b.nets[k].pins) THEN "net connectivity"
+                     ELSE IF \E k \in 1..Len(b.nets) : \E j \in 1..Len(b.nets[k].pins) : a.nets[k].pins[j].c # b.nets[k].pins[j].c THEN "net connectivity"
+                     ELSE IF ob.nets # oa.nets THEN "pin offsets"
+                     ELSE IF Len(a.rows) # Len(b.rows) \/ \E r \in 1..Len(b.rows) : [a.rows[r] EXCEPT !.o = "N"] # [b.rows[r] EXCEPT !.o = "N"] THEN "row geometry"
+                     ELSE IF a.rows # b.rows THEN "row orientation"
+                     ELSE IF Hpwl(WithDefaults(a)) # Hpwl(b) THEN "wirelength"
+                     ELSE "" IN
+         IF what = "" THEN {} ELSE {F("C20", <<"export / read-back differs in", what>>, "rt-" \o what)}
+RoundTrip == /\ Is("RoundTrip") /\ fails' = RoundTripFails
+             /\ l' = l + 1 /\ UNCHANGED <<run, scen, params, base, objs, call, hist, expect>>
+ExportEv == /\ Is("Export") /\ fails' = {}
+            /\ l' = l + 1 /\ UNCHANGED <<run, scen, params, base, objs, call, hist, expect>>
+\* C20: one entry of the Python binding table: the Python name must denote the C++ entity of the same name, which exists
+BindEv == /\ Is("Bind")
+          /\ fails' = (IF Ev.pyn = Ev.cppn /\ Ev.exists /\ Ev.sameOwner THEN {}
+                       ELSE {F("C20", <<"Python name bound to a different C++ entity", Ev.owner, Ev.py, Ev.cppClass, Ev.cpp, "exists", Ev.exists>>, "bind-" \o Ev.owner \o "." \o Ev.py)})
+          /\ l' = l + 1 /\ UNCHANGED <<run, scen, params, base, objs, call, hist, expect>>
+
+\* C18: cell expansion.  Real-valued arguments are dyadic: target / cap = p64/64, margin = m2/2 row heights,
+\* width cap = cap64/64 of the widest row, factors = f4/4, congestion = c4/4.
+MovableArea(c) == SumSeq([i \in 1..NCells(c) |-> IF c.cells[i].f THEN 0 ELSE c.cells[i].w * c.cells[i].h])
+AvailArea(c, m2) == SumSeq([r \in 1..Len(c.rows) |->
+                        LET S == SegmentsOfRow(c, r) H == c.rows[r].y1 - c.rows[r].y0
+                            RECURSIVE Add(_)
+                            Add(Q) == IF Q = {} THEN 0 ELSE LET q == CHOOSE q \in Q : TRUE IN
+                                        Max2(0, (q[2] - q[1]) - m2 * H) * H + Add(Q \ {q})
+                        IN Add(S)])
+MaxH(c) == LET hs == { c.cells[i].h : i \in Movable(c) } IN IF hs = {} THEN 0 ELSE SetMax(hs)
+SumH(c) == SumSeq([i \in 1..NCells(c) |-> IF c.cells[i].f THEN 0 ELSE c.cells[i].h])
+OnlyMovableWidths(b, a) ==
+    /\ Len(a.cells) = Len(b.cells) /\ a.rows = b.rows /\ a.nets = b.nets
+    /\ \A i \in 1..NCells(b) : [a.cells[i] EXCEPT !.w = 0] = [b.cells[i] EXCEPT !.w = 0] /\ (b.cells[i].f => a.cells[i].w = b.cells[i].w)
+ExpandFails ==
+    LET b == Ev.before a == Ev.after avail == AvailArea(Ev.before, Ev.m2) IN
+    IF Ev.kind = "congestion"
+    THEN (IF a # b THEN {F("C18", <<"computeCellExpansion modified the circuit">>, "exp-const")} ELSE {}) \cup
+         (IF Ev.outcome # "ok" \/ ~Ev.exact \/ Len(Ev.res4) # NCells(b) THEN {F("C18", <<"expansion factors: wrong shape or inexact", Ev.outcome>>, "exp-shape")}
+          ELSE LET exp(i) == IF b.cells[i].f THEN 4
+                             ELSE LET e == b.cells[i]
+                                      hits == { k \in 1..Len(Ev.regions) : Ev.regions[k].c4 > 4 /\
+                                                  Ev.regions[k].x0 < X1(e) /\ e.x < Ev.regions[k].x1 /\ Ev.regions[k].y0 < Y1(e) /\ e.y < Ev.regions[k].y1 }
+                                  IN IF hits = {} THEN 4 ELSE SetMax({ (Ev.regions[k].c4 - 4) * Ev.pf + Ev.fp4 + 4 : k \in hits })
+                   bad == { i \in 1..NCells(b) : Ev.res4[i] # exp(i) }
+               IN IF bad = {} THEN {} ELSE {F("C18", <<"expansion factor from the congestion map", bad>>, "exp-congestion")})
+    ELSE
+      (IF Ev.outcome # "ok" THEN {F("C18", <<"expansion raised an error">>, "exp-throw")} ELSE {}) \cup
+      (IF OnlyMovableWidths(b, a) THEN {} ELSE {F("C18", <<"expansion changed something else than the widths of movable cells">>, "exp-frame")}) \cup
+      (IF Len(a.cells) # Len(b.cells) THEN {}
+       ELSE
+        LET capW == IF Ev.kind = "density" THEN (SetMax({0} \cup { b.rows[r].x1 - b.rows[r].x0 : r \in 1..Len(b.rows) }) * Ev.cap64) \div 64 ELSE 1000000000
+            shrunk == { i \in Movable(b) : a.cells[i].w < b.cells[i].w /\ capW >= b.cells[i].w }
+            before == MovableArea(b) after == MovableArea(a) IN
+        (IF shrunk = {} THEN {} ELSE {F("C18", <<"a movable cell became narrower", shrunk>>, "exp-shrink")}) \cup
+        \* utilisation never above the target / cap beyond rounding, unless it already was (then nothing changes)
+        (IF 64 * before >= Ev.p64 * avail \/ avail = 0 \/ before = 0
+         THEN (IF after # before THEN {F("C18", <<"expansion although the density is already at the target">>, "exp-noop")} ELSE {})
+         ELSE (IF 64 * after > Ev.p64 * avail + 64 * (IF Ev.kind = "density" THEN 2 * MaxH(b) ELSE SumH(b))
+               THEN {F("C18", <<"utilisation above the requested target / cap", after, avail, Ev.p64>>, "exp-over")} ELSE {}) \cup
+              \* the target is reached (within rounding) when no cell hit the width cap
+              (IF Ev.kind = "density" /\ (\A i \in Movable(b) : b.cells[i].w * b.cells[i].h > 0 => a.cells[i].w < capW)
+                  /\ 64 * after < Ev.p64 * avail - 64 * 2 * MaxH(b)
+               THEN {F("C18", <<"target density not reached although no cell hit the cap", after, avail, Ev.p64>>, "exp-under")} ELSE {})))
+ExpandEv == /\ Is("Expand") /\ fails' = ExpandFails
+            /\ l' = l + 1 /\ UNCHANGED <<run, scen, params, base, objs, call, hist, expect>>
+
 \* C16: capacity grid built from a circuit: regions = free row segments (rows minus fixed obstructions), clipped by the side
 \* margin floor(sideMargin x smallest positive cell height) on both sides, segments not wider than twice the margin dropped.
 GridRegions(c, margin) ==
@@ -290,7 +373,7 @@ ParamCheck == /\ Is("ParamCheck")
               /\ fails' = ParamCheckFails(Ev)
               /\ l' = l + 1 /\ UNCHANGED <<run, scen, params, base, objs, call, hist, expect>>
 
-Next == GridEv \/ SolveEv \/ Schedule \/ HarnessError \/ ExpectReject \/ ParamsCtor \/ ParamCheck \/ Rebase \/ FreeEv \/ Incr \/ Reset \/ Begin \/ Cb \/ CbThrow \/ EndReturn \/ EndThrow \/ BadFate \/ Setter
+Next == RoundTrip \/ ExportEv \/ BindEv \/ ExpandEv \/ GridEv \/ SolveEv \/ Schedule \/ HarnessError \/ ExpectReject \/ ParamsCtor \/ ParamCheck \/ Rebase \/ FreeEv \/ Incr \/ Reset \/ Begin \/ Cb \/ CbThrow \/ EndReturn \/ EndThrow \/ BadFate \/ Setter
 Spec == Init /\ [][Next]_vars
 
 ---------------------------------------------------------------------------
